@@ -8,7 +8,11 @@
 (*               recorded by wrapping the module-level functions (stage     *)
 (*               order, the shift vector handed to fourier.fshift, rows     *)
 (*               handed to the spatial filter) and the classes measured on  *)
-(*               the output (Removed >= 40 dB, Kept >= 90 %)                *)
+(*               the output (Removed >= 40 dB, Kept >= 90 %, zero reference *)
+(*               per group when referencing was asked for).  The call may   *)
+(*               come after other calls of the same process on the same     *)
+(*               header / label / settings objects (one record per call     *)
+(*               under test; the earlier calls are its history)             *)
 (*  "flow"     : destripe with a block label vector; which output blocks    *)
 (*               change when one input block is perturbed                   *)
 (*  "calltree" : car / kfilt / fk called with channel groups: the recorded  *)
@@ -59,12 +63,18 @@ PipeProp ==
         iS == IndexOf(Names(T.events), "spatial") IN
     << \* the disturbance is recorded with the wiring's delays: after the shifts handed to fshift every channel
        \* carries the same time label (sign, table, channel order), and that happens before the spatial filter
-       <<iR > 0 /\ T.exact /\ Len(T.shift) = 384 /\ P!AlignedP(T.gen, Zero(T.shift)), "Aligned">>,
+       \* (T.unbound: the run completed and no call of fourier.fshift was seen - the mechanism is not observable on this code,
+       \*  which is drift below; the class Removed, measured on the output, is what then decides about the delays)
+       <<T.unbound \/ (iR > 0 /\ T.exact /\ Len(T.shift) = 384 /\ P!AlignedP(T.gen, Zero(T.shift))), "Aligned">>,
        <<iS = 0 \/ iR < iS, "Aligned:after-spatial-filter">>,
        <<T.removed \in {"ok", "na"}, "Removed">>,
-       <<T.kept \in {"ok", "na"}, "Kept">> >>
+       <<T.kept \in {"ok", "na"}, "Kept">>,
+       \* median / mean referencing requested through destripe (k_filter=False, operator and channel groups in k_kwargs):
+       \* the reference of the output is zero at every sample within each group ("na": the k-filter variant)
+       <<T.zero \in {"ok", "na"}, "ZeroReference">> >>
 PipeImpl ==
-    << <<Names(T.events) = (IF T.nlabels > 0 THEN <<"hp", "realign", "interp", "spatial">> ELSE <<"hp", "realign", "spatial">>),
+    << <<~T.unbound, "destripe:realign-not-through-fshift">>,
+       <<Names(T.events) = (IF T.nlabels > 0 THEN <<"hp", "realign", "interp", "spatial">> ELSE <<"hp", "realign", "spatial">>),
          "destripe:stage-order">>,
        <<Len(T.shift) = 384 /\ \A c \in 0..383 : T.shift[c + 1] = P!ShiftNum(T.gen, c), "destripe:shift-table">>,
        <<LET iS == IndexOf(Names(T.events), "spatial") IN iS > 0 /\ T.events[iS][3] = T.ninside, "destripe:spatial-rows">> >>
